@@ -331,8 +331,43 @@ func init() {
 					lb, pb := mk(e2)
 					ls := mvt.Layers{la, lb}
 					if tile.Z >= 2 {
+						// a layer with more than one feature, features without a geometry among them (properties only; Marshal skips
+						// them): every feature with a geometry is projected, the list of features stays as it is
+						lc := &mvt.Layer{Name: "many", Version: 2, Extent: extent}
+						var wantC []orb.Geometry
+						for k := r.Range(2, 7); k > 0; k-- {
+							var g orb.Geometry
+							if !r.P(1, 3) {
+								g = orb.MultiPoint{{float64(r.Range(0, int(extent)-1)), float64(r.Range(0, int(extent)-1))}, {float64(r.Range(0, int(extent)-1)), float64(r.Range(0, int(extent)-1))}}
+								if r.Bool() {
+									g = orb.LineString(g.(orb.MultiPoint))
+								}
+							}
+							f := geojson.NewFeature(refmodel.Copy(g))
+							f.Geometry = refmodel.Copy(g) // (NewFeature of a nil geometry: keep it nil)
+							lc.Features = append(lc.Features, f)
+							wantC = append(wantC, g)
+						}
+						before := append([]*geojson.Feature{}, lc.Features...)
+						if r.Bool() {
+							ls = append(ls, lc)
+						} else {
+							ls = mvt.Layers{lc, la, lb}
+						}
 						ls.ProjectToWGS84(tile)
 						ls.ProjectToTile(tile)
+						same := len(lc.Features) == len(before)
+						for i := 0; same && i < len(before); i++ {
+							same = lc.Features[i] == before[i] && refmodel.EqualBits(before[i].Geometry, wantC[i])
+						}
+						c.Count("layers_with_features_without_a_geometry", 1)
+						if !same {
+							var after []string
+							for _, f := range lc.Features {
+								after = append(after, sv(f.Geometry))
+							}
+							c.Fail("", "a layer of several features (some without a geometry) does not come back as it was after ProjectToWGS84 and ProjectToTile", map[string]interface{}{"tile": sv(tile), "extent": extent, "before": sv(wantC), "after": after})
+						}
 						c.Evals(2 * (len(pa) + len(pb)))
 						if !refmodel.EqualValues(la.Features[0].Geometry, pa) || !refmodel.EqualValues(lb.Features[0].Geometry, pb) {
 							c.Fail("", "integer tile coordinates do not come back exactly through Layers.ProjectToWGS84 / Layers.ProjectToTile with layers of different extents", map[string]interface{}{"tile": sv(tile), "extents": []uint32{extent, e2}, "first_layer": sv(pa), "first_back": sv(la.Features[0].Geometry), "second_layer": sv(pb), "second_back": sv(lb.Features[0].Geometry)})
